@@ -97,6 +97,36 @@ fn main() {
         signal_hook::low_level::unregister(id);
         println!("socket_ok_unregistered {} 1 1", closes(fd));
     }
+    // the reader goes away while the action stays registered; deliveries (their writes fail with EPIPE) must not release
+    // the descriptor - that is for the thread that removes the action, exactly once (C01, C13).  SIGPIPE is ignored in
+    // every Rust program, so the failing write is just an error return.
+    unsafe { libc::signal(libc::SIGPIPE, libc::SIG_IGN) };
+    {
+        let (r, w) = new_pipe(); reset(w);
+        let id = pipe::register_raw(libc::SIGUSR1, w).unwrap();
+        unsafe { libc::syscall(libc::SYS_close, r) };
+        unsafe { libc::raise(libc::SIGUSR1) };
+        unsafe { libc::raise(libc::SIGUSR1) };
+        println!("raw_pipe_reader_gone_delivered {} 0 1", closes(w));
+        let open = unsafe { libc::fcntl(w, libc::F_GETFD) } != -1;
+        println!("raw_pipe_reader_gone_still_open {} 1 1", open as i32);
+        signal_hook::low_level::unregister(id);
+        println!("raw_pipe_reader_gone_unregistered {} 1 1", closes(w));
+    }
+    {
+        let (r, w) = UnixStream::pair().unwrap();
+        let fd = w.into_raw_fd(); reset(fd);
+        let w = unsafe { <UnixStream as std::os::unix::io::FromRawFd>::from_raw_fd(fd) };
+        let id = pipe::register(libc::SIGUSR2, w).unwrap();
+        drop(r);
+        unsafe { libc::raise(libc::SIGUSR2) };
+        unsafe { libc::raise(libc::SIGUSR2) };
+        println!("socket_reader_gone_delivered {} 0 1", closes(fd));
+        let open = unsafe { libc::fcntl(fd, libc::F_GETFD) } != -1;
+        println!("socket_reader_gone_still_open {} 1 1", open as i32);
+        signal_hook::low_level::unregister(id);
+        println!("socket_reader_gone_unregistered {} 1 1", closes(fd));
+    }
     // a descriptor that is open, is no socket and refuses F_SETFL (O_PATH): the registration is refused half-way through
     {
         let fd = unsafe { libc::open(b"/\0".as_ptr() as *const libc::c_char, libc::O_PATH) };
